@@ -372,6 +372,8 @@ def create_namespace() -> dict:
 
 def parse(line, namespace):
     separator_i = line.find("=")
+    if separator_i == -1:
+        raise QueryParseException("Statement is not an assignment")
     var_str = line[:separator_i]
     val_str = line[separator_i + 1 :]
     if not val_str:
